@@ -839,7 +839,7 @@ class C17(Prop):
             L.append(g.t_conn_failed("pclose", c))
         # H3_NO_ERROR, the code a "helpful" adapter is most tempted to treat as success: every window, both frame kinds
         for w in (1, 7, 16, 64, 1000):
-            for f in "DH":
+            for f in "DHDH":
                 L.append(g.t_stop(H3_NO_ERROR, w=w, f=f))
             L.append(g.t_unframed_err(H3_NO_ERROR, how="pstop"))
         # audit leftover C17-3: every accept / open call site after the connection failed, on every connection shape
